@@ -68,9 +68,9 @@ def _one(tree):
             arr = st['mems'][mem]
             a = ins['maddr']
             old = z3.Select(arr, a)
-            newv = CT.expected(o, acts, 'mem', SV.lift(old, Wc))
+            newv = CT.expected(o, acts, 'mem_write', SV.lift(old, Wc))
             newv = newv if isinstance(newv, SV) else SV(newv, Wc)
-            anya = CT.any_active(o, acts, 'mem')
+            anya = CT.any_active(o, acts, 'mem_write')
             anya = z3.BoolVal(anya) if isinstance(anya, bool) else anya
             exp_arr = z3.If(anya, z3.Store(arr, a, z3.Extract(CT.W - 1, 0, newv.t)), arr)
             goals.append(nxt['mems'][mem] == exp_arr)
